@@ -1,6 +1,9 @@
 (* Props/C05.v — duality maps invert each other and define the regressive product.
-   Statements only.  (Operator-level theorems are added from Theory/Ops.v.) *)
-From KV Require Import Model.All Bridge.Codegen Theory.Bits.
+   Statements only; proofs in Theory/Bits.v, Theory/Ops.v, Theory/SignBits.v, Theory/OpsWF.v.
+   Every commutative ring, every well-formed algebra (r = 0, 1, > 1; default and custom bases, whose
+   pseudoscalar is the algebra's own named pseudoscalar), all duplicate-free in-range key tuples. *)
+From Coq Require Import Ring_theory.
+From KV Require Import Model.All Bridge.Codegen Theory.WF Theory.Bits Theory.Sparse Theory.Product Theory.SignBits Theory.Ops Theory.OpsWF.
 Local Open Scope Z_scope.
 
 (* hodge/unhodge keys and sign tests, the rp filter / key-out / four-factor sign and the polarity
@@ -16,11 +19,84 @@ Theorem C05_kernel_tie : forall sgn l kx ky ko,
 Proof. intros. repeat split. Qed.
 Print Assumptions C05_kernel_tie.
 
-(* the regressive product selects exactly the pairs whose complements are disjoint, i.e. the pairs the
-   outer product of the Hodge duals selects, and its output key is the key of unhodge(hodge a ^ hodge b) *)
 Theorem C05_rp_filter_is_op_of_duals : forall n kx ky, 0 <= n -> 0 <= kx <= 2 ^ n - 1 -> 0 <= ky <= 2 ^ n - 1 ->
   filter_rp (2 ^ n) kx ky (keyout_rp (2 ^ n) kx ky)
   = filter_op (2 ^ n - 1 - kx) (2 ^ n - 1 - ky) (Z.lxor (2 ^ n - 1 - kx) (2 ^ n - 1 - ky))
   /\ keyout_rp (2 ^ n) kx ky = 2 ^ n - 1 - Z.lxor (2 ^ n - 1 - kx) (2 ^ n - 1 - ky).
 Proof. intros. split; [apply filter_rp_filter_op | apply keyout_rp_hodge]; assumption. Qed.
 Print Assumptions C05_rp_filter_is_op_of_duals.
+
+Section Ring.
+  Variable R : Type.
+  Variables (rO rI : R) (radd rmul rsub : R -> R -> R) (ropp : R -> R).
+  Hypothesis Rth : ring_theory rO rI radd rmul rsub ropp (@eq R).
+  Local Notation O := (mkOps R radd rsub rmul ropp rO rI).
+  Local Notation "x == y" := (equiv rO rI radd rmul rsub ropp x y) (at level 70).
+
+  Theorem C05_unhodge_hodge : forall A, wf_alg A = true -> forall x : mv R, wfmv A x ->
+    unhodge O A (hodge O A x) == x.
+  Proof. intros A H. pose proof (wf_sign_hyps A H) as S.
+    apply (hodge_unhodge _ _ _ _ _ _ _ Rth A (sh_keys A S) (sh_nodup A S)). Qed.
+  Theorem C05_hodge_unhodge : forall A, wf_alg A = true -> forall x : mv R, wfmv A x ->
+    hodge O A (unhodge O A x) == x.
+  Proof. intros A H. pose proof (wf_sign_hyps A H) as S.
+    apply (unhodge_hodge _ _ _ _ _ _ _ Rth A (sh_keys A S) (sh_nodup A S)). Qed.
+
+  (* every basis blade E satisfies E ^ hodge(E) = pseudoscalar *)
+  Theorem C05_blade_wedge_hodge : forall A, wf_alg A = true -> forall k K, 0 <= k < alg_len A -> 0 <= K < alg_len A ->
+    coeff O K (op O A [(k, rI)] (hodge O A [(k, rI)])) = if Z.eqb K (pss_key A) then rI else rO.
+  Proof. intros A H. pose proof (wf_sign_hyps A H) as S.
+    apply (blade_wedge_hodge _ _ _ _ _ _ _ Rth A (sh_keys A S) (sh_nodup A S) (sh_disj A S)). Qed.
+
+  (* a & b = unhodge(hodge(a) ^ hodge(b)), with the pseudoscalar as identity *)
+  Theorem C05_rp_spec : forall A, wf_alg A = true -> forall x y : mv R, wfmv A x -> wfmv A y ->
+    rp O A x y == unhodge O A (op O A (hodge O A x) (hodge O A y)).
+  Proof. intros A H. pose proof (wf_sign_hyps A H) as S.
+    apply (rp_spec _ _ _ _ _ _ _ Rth A (sh_keys A S) (sh_nodup A S) (sh_disj A S)). Qed.
+  Theorem C05_rp_pss_identity : forall A, wf_alg A = true -> forall x : mv R, wfmv A x ->
+    rp O A x (pss_mv O A) == x /\ rp O A (pss_mv O A) x == x.
+  Proof. intros A H. pose proof (wf_sign_hyps A H) as S.
+    apply (rp_pss _ _ _ _ _ _ _ Rth A (sh_keys A S) (sh_nodup A S) (sh_disj A S) (sh_scal A S)). Qed.
+
+  (* polarity(x) = x * inverse(pseudoscalar); it raises ZeroDivisionError exactly when pss^2 = 0 ... *)
+  Theorem C05_polarity_spec : forall A, wf_alg A = true -> forall x : mv R, wfmv A x ->
+    (polarity O A x = Err EZeroDiv <-> sgn A (pss_key A) (pss_key A) = 0) /\
+    (sgn A (pss_key A) (pss_key A) = 1 -> polarity O A x = Ok (gp O A x (pss_mv O A))) /\
+    (sgn A (pss_key A) (pss_key A) = -1 ->
+       exists r, polarity O A x = Ok r /\ r == gp O A x [(pss_key A, ropp rI)]).
+  Proof. intros A H. pose proof (wf_sign_hyps A H) as S.
+    apply (polarity_spec _ _ _ _ _ _ _ Rth A (sh_keys A S) (sh_nodup A S)). Qed.
+  Theorem C05_unpolarity_polarity : forall A, wf_alg A = true -> forall x r : mv R, wfmv A x ->
+    polarity O A x = Ok r -> unpolarity O A r == x.
+  Proof. intros A H. pose proof (wf_sign_hyps A H) as S.
+    apply (pol_unpol _ _ _ _ _ _ _ Rth A (sh_keys A S) (sh_nodup A S) (sh_assoc A S) (sh_scal A S)). Qed.
+  Theorem C05_polarity_unpolarity : forall A, wf_alg A = true -> forall x r : mv R, wfmv A x ->
+    polarity O A (unpolarity O A x) = Ok r -> r == x.
+  Proof. intros A H. pose proof (wf_sign_hyps A H) as S.
+    apply (unpol_pol _ _ _ _ _ _ _ Rth A (sh_keys A S) (sh_nodup A S) (sh_assoc A S) (sh_scal A S)). Qed.
+
+  (* dual()/undual(): polarity for non-degenerate metrics, Hodge when exactly one generator is null,
+     an error otherwise; explicit kinds override *)
+  Theorem C05_dual_kind : forall A (x : mv R),
+    (alg_r A = 0%nat -> dual O A KAuto x = polarity O A x) /\
+    (alg_r A = 1%nat -> dual O A KAuto x = Ok (hodge O A x)) /\
+    ((2 <= alg_r A)%nat -> dual O A KAuto x = Err EOther) /\
+    dual O A KPolarity x = polarity O A x /\ dual O A KHodge x = Ok (hodge O A x) /\
+    dual O A KUnknown x = Err EValue.
+  Proof. intros A x. apply dual_kind. Qed.
+End Ring.
+Print Assumptions C05_unhodge_hodge.
+Print Assumptions C05_hodge_unhodge.
+Print Assumptions C05_blade_wedge_hodge.
+Print Assumptions C05_rp_spec.
+Print Assumptions C05_rp_pss_identity.
+Print Assumptions C05_polarity_spec.
+Print Assumptions C05_unpolarity_polarity.
+Print Assumptions C05_polarity_unpolarity.
+Print Assumptions C05_dual_kind.
+
+(* ... which is exactly when the metric is degenerate *)
+Theorem C05_polarity_raises_iff_degenerate : forall A, wf_alg A = true ->
+  (sgn A (alg_len A - 1) (alg_len A - 1) = 0 <-> In 0 (a_sig A)).
+Proof. exact sgn_pss_zero_iff. Qed.
+Print Assumptions C05_polarity_raises_iff_degenerate.
